@@ -10,7 +10,7 @@ LEVEL = 'other'
 EXPLANATION = (
     'CrossHair (symbolic execution with z3) runs the real PoolConfig.convert_requests_to_resources, '
     'JobPrivateInstanceManagerConfig.convert_requests_to_resources and InstanceCollectionConfigs.select_inst_coll '
-    '(select_cheapest_price_pool / select_pool_from_worker_type / select_job_private, real price computation) with the '
+    '(select_cheapest_price_pool / select_pool_from_worker_type / select_job_private) with the '
     'requested mcpu, memory bytes, storage bytes, preemptible flag, label choice and machine-type index as symbolic values. '
     'Pool obligations: one per cloud x worker type with the worker core count symbolic over the repository\'s table; '
     'selection obligations: per cloud x pool-set variant x worker-type choice; job-private: every machine type of the table. '
@@ -19,7 +19,8 @@ EXPLANATION = (
     'exceeds the cloud disk limit. The float leaves (ceil((m/B)*1000), ceil(log2(c/1000)), int((c/1000)*B), ceil(s/1024/1024/1024)) '
     'are rewritten on the AST in memory; each rewrite is justified in the same run by bit-precise Float64 lemmas decided by z3 '
     '(for ceil((m/B)*1000), which is NOT exact in floats, the cut returns an arbitrary member of the proven power-of-two bucket, '
-    'an over-approximation driven by extra symbolic slack inputs). Only "Confirmed over all paths" counts. Bounds: mcpu < 2^20, '
+    'an over-approximation driven by extra symbolic slack inputs; pool prices are arbitrary symbolic numbers, also an '
+    'over-approximation). Only "Confirmed over all paths" counts. Bounds: mcpu < 2^20, '
     'memory < 2^44, storage < 2^47; pool sets are the listed variants, not all sets; strings -> integers is C25.'
 )
 CLS_KNOWN = 'nonpow2-worker-cores-crash-price-selection'
@@ -123,6 +124,11 @@ def run(R):
              'exactness on the powers of two of the table is checked concretely each run',
              'Python int/int true division is the correctly rounded quotient; int(float) = RTZ; math.ceil(float) = RTP to integer',
              'the cut for ceil((m/B)*1000) over-approximates: any value of the proven bucket may be returned (slack inputs)',
+             'max(a, b) on ints is rewritten to the branch-free b + [a > b]*(a - b) and int(2**p * 1000) to a table sum (lemmas '
+             'imax / pow2scale) so that CrossHair does not fork inside the numeric leaves',
+             'in the selection obligations without a worker type (variants 0-2) PoolConfig.price_per_hour is replaced by an '
+             'ARBITRARY symbolic price per pool (12 extra symbolic inputs): an over-approximation of every rate table; the real '
+             'price computation runs in variant 3 (known class excluded), in the known-finding obligation and in every replay',
              'CrossHair 0.0.110 path exploration is exhaustive when it reports "Confirmed over all paths"')
     R.extra['trusted_base'] = ['CrossHair/z3', 'z3 Float64 theory (lemmas)', 'harness/C12_res.py oracle and pool sets',
                                'vt/floatcut.py rewrite rules', 'libm log2 assumption']
@@ -153,6 +159,8 @@ def run(R):
     # 1. Float64 lemmas + libm points + concrete agreement at boundaries
     if 'clog2' in rules:
         R.validation_points += floatcut.libm_log2_points()
+    if 'pow2scale' in rules:
+        R.validation_points += floatcut.libm_pow2_points()
     _validate_cuts(R, H, cuts)
     lemmas_ok = floatcut.prove(R, rules, lim, timeout_s=150 if quick else 600, workers=8,
                                second=None if quick else 'cvc5')
@@ -182,7 +190,8 @@ def run(R):
             good = reach and lemmas_ok
             R.ob(name, 'discharged' if good else 'not_discharged', dt, {'twin': rmsg, 'lemmas_ok': lemmas_ok}, nontrivial=reach)
         elif v == 'refuted':
-            a = chrun.parse_counterexample(msg, ARGS[kind])
+            stub = kind == 'select' and meta['wt_i'] == 0 and meta['variant'] != 3
+            a = chrun.parse_counterexample(msg, ARGS[kind] + ([f'pr{i}' for i in range(T.NPRICE)] if stub else []))
             if a is None:
                 raise HarnessError(f'cannot parse CrossHair counterexample: {msg}')
             r = _replay(H, kind, meta, a)
